@@ -31,6 +31,9 @@ var c09CoreValues = []c09Value{
 var c09MoreValues = []c09Value{
 	{"NOERROR;A;1.1.1.1", "A|1.1.1.1"}, {"NOERROR;CNAME;new.example", "CNAME|new.example"},
 	{"::ffff:1.2.3.4", "AAAA|::ffff:1.2.3.4"}, {"NOERROR;AAAA;::ffff:1.2.3.4", "AAAA|::ffff:1.2.3.4"},
+	// text values with the field separator inside; a mixed-case CNAME target in both spellings
+	{"NOERROR;TXT;v=1; k=a", "TXT|v=1; k=a"}, {"NOERROR;TXT;v=1; k=b", "TXT|v=1; k=b"},
+	{"New.Example", "CNAME|New.Example"}, {"NOERROR;CNAME;New.Example", "CNAME|New.Example"},
 	// same priority, target and parameter count; one has a flag parameter (empty value) the other lacks
 	{"NOERROR;HTTPS;10 svc.example alpn=h2 no-default-alpn=", "HTTPS|10 svc.example alpn=h2 no-default-alpn="}, {"NOERROR;HTTPS;10 svc.example alpn=h2 port=8443", "HTTPS|10 svc.example alpn=h2 port=8443"},
 }
